@@ -31,7 +31,8 @@ EXPECT_PROBES = {"quick": [], "thorough": []}
 LEAVES = [None, True, False, 0, 1, -1, 1.0, -0.0, 0.5, "", "a"]
 BOUNDARY = [2**63 - 1, 2**63, 2**63 + 1, -2**63 - 1, 2**70, -2**200, 10**300, 5e-324, 1.7976931348623157e308,
             -1.7976931348623157e308, 1e-7, 123456789.123456789, "\U0001d11e\U0001f600", "\"\\\n\t\r\b\f/", "\u0000",
-            "  ", "é中", " ", "1", "null", "true", "a" * 300, 0, 1, True, False, None, 1.0, -0.0]
+            "  ", "é中", " ", "1", "null", "true", "a" * 300, 0, 1, True, False, None, 1.0, -0.0,
+            "caf\udce9.txt", "\ud800"]   # lone surrogates (os.fsdecode of a non-UTF-8 name): legal str, written as JSON escapes
 KEYS = ["", " ", "1", "null", "-0", "a b", "é", "\U0001f600", "k", "\"", "\\", "\n", "a/b", "0.5", "True", "k\udc80"]
 
 
